@@ -1172,6 +1172,8 @@ def main(prop, tier, seed):
             builder.validate(run, prop == "C04", tier)
         if prop == "C19" and not run.machinery_errors:
             funcfl_negative_pair(run)
+        if prop == "C02" and not run.machinery_errors:
+            dlpoly_dynamic_range(run)
         if prop in ("C04", "C05") and not run.machinery_errors:
             calibrate_eeam(run)
         if tier == "thorough" and prop in ("C01", "C03", "C05"):
@@ -1371,6 +1373,58 @@ def funcfl_negative_pair(run):
             run.violation(dict(engine="layout", target="funcfl", clause="negative-pair", route="func"),
                           "funcfl via func: [negative-pair] a pair potential with %s (negative on the grid) %s%s" % (
                               name, "was written as a funcfl file" if raised is None else "was refused but %d characters were written" % len(text), vals), dict(name=name))
+
+
+def dlpoly_dynamic_range(run):
+    """C02 'records of four 15-character fields' over the whole range of values a potential takes: a short-ranged repulsion
+    falls below 1e-99 well inside ordinary cutoffs (1000 exp(-r / 0.03) at r = 7), where '% 14.7e' needs a three digit exponent"""
+    import io, math
+    from atsim.potentials import Potential
+    from atsim.potentials.pair_tabulation import DLPoly_PairTabulation
+    cases = [("bornmayer 1000 0.03", lambda r: 1000.0 * math.exp(-r / 0.03), "as.bornmayer 1000.0 0.03"),
+             ("constant 3e-120", lambda r: 3e-120, "as.constant 3e-120"),
+             ("-2.5e-101 r", lambda r: -2.5e-101 * r, "as.polynomial 0 -2.5e-101")]
+    for name, fn, defn in cases:
+        for route in ("class", "wp", "ini"):
+            run.evaluations += 1
+            run.replayed += 1
+            run.distinct("dynamic-range:%s:%s" % (name, route))
+            out = io.StringIO()
+            try:
+                if route == "class":
+                    DLPoly_PairTabulation([Potential("Aa", "Bq1", fn)], 10.0, 24).write(out)
+                elif route == "wp":
+                    P.writePotentials("DL_POLY", [Potential("Aa", "Bq1", fn)], 10.0, 24, out=out)
+                else:
+                    Configuration().read(io.StringIO("[Tabulation]\ntarget : DL_POLY\ncutoff : 10.0\nnr : 24\n\n[Pair]\nAa-Bq1 : >=0 %s\n" % defn)).write(out)
+                t = formats.parse_dlpoly_table(out.getvalue())
+                b = t["blocks"][0]
+                bad = None
+                for k in range(1, 25):
+                    r = k * 0.5
+                    for col, exact in (("E", fn(r)), ("F", None)):
+                        tok = b[col][k - 1]
+                        if len(tok.split()) != 1:
+                            bad = "%s record %d holds %r" % (col, k, tok)
+                            break
+                        if exact is not None:
+                            v = float(tok)
+                            # a value below the smallest magnitude the field can hold (1e-99) is written as zero; others to 8 digits
+                            if not (abs(v - exact) <= 1e-7 * abs(exact) or (abs(exact) < 1e-99 and v == 0.0)):
+                                bad = "energy %d is %s, the potential gives %r at r=%s" % (k, tok, exact, r)
+                                break
+                    if bad:
+                        break
+                if bad:
+                    run.violation(dict(engine="layout", target="DLPOLY", clause="dynamic-range", route=route),
+                                  "DLPOLY via %s: [dynamic-range] potential %s: %s" % (route, name, bad), dict(name=name, route=route))
+            except formats.FormatError as e:
+                run.violation(dict(engine="layout", target="DLPOLY", clause="dynamic-range", route=route),
+                              "DLPOLY via %s: [dynamic-range] potential %s (values below 1e-99 inside the cutoff): the TABLE is not laid out in 15-character fields: %s" % (route, name, e),
+                              dict(name=name, route=route))
+            except Exception as e:
+                run.violation(dict(engine="layout", target="DLPOLY", clause="dynamic-range", route=route),
+                              "DLPOLY via %s: [dynamic-range] potential %s: %s: %s" % (route, name, type(e).__name__, e), dict(name=name, route=route))
 
 
 def main(prop, tier, seed):     # noqa: F811
